@@ -40,7 +40,9 @@ Fixpoint dn_loop (rec : nat -> gobuf -> nat -> res dn_out) (data : slice)
   | O => Fuel
   | S f =>
       b <- idx data index ;;
-      if b =? 0 then Ok (name_of start buf, S index, buf)
+      if b =? 0 then
+        (if Nat.ltb 254 (length (bl buf) - start) then Err EParseFrame    (* total length, RFC 1035 2.3.4 *)
+         else Ok (name_of start buf, S index, buf))
       else
         let top := N.land b 192 in
         if top =? 192 then
@@ -52,7 +54,8 @@ Fixpoint dn_loop (rec : nat -> gobuf -> nat -> res dn_out) (data : slice)
             else
               r <- rec offsetp buf (S level) ;;
               let buf' := snd r in
-              Ok (name_of start buf', S (S index), buf')
+              if Nat.ltb 254 (length (bl buf') - start) then Err EParseFrame
+              else Ok (name_of start buf', S (S index), buf')
         else if top =? 64 then Err EOther
         else if top =? 128 then Err EOther
         else
@@ -61,6 +64,8 @@ Fixpoint dn_loop (rec : nat -> gobuf -> nat -> res dn_out) (data : slice)
           else if Nat.ltb (len data) index2 then Err EParseFrame
           else
             lab <- sl data (S index) index2 ;;
+            if existsb (fun c => c =? 46) (view lab) then Err EParseFrame    (* '.' inside a label *)
+            else
             let buf1 := gappend (gappend buf [DOT]) (view lab) in
             if Nat.leb (len data) index2 then Err EParseFrame
             else dn_loop rec data offset start level f index2 buf1
